@@ -1292,10 +1292,15 @@ def run(ck):
         "and compared on every run",
         "C05 (model/IngestFraming.v): compress/gzip and golang/snappy readers below helpers.LimitDecoded are ORACLES (any chunking, any error at any point); "
         "io.ReadAll's loop (read until an error, EOF = success) as read",
-        "C05 (model/IngestShared.v): InsertServiceV2's Request / swapBuffers / fetchLoopIteration as read (one mutex, columns and waiting promises swapped together, "
+        "C05 (model/IngestShared.v): InsertServiceV2's Request / swapBuffers as read, fetchLoopIteration regenerated since round 6 (one mutex, columns and waiting promises swapped together, "
         "every waiting promise gets the verdict of client.Do); ch-go proto.Block.EncodeRawBlock refuses a block iff a column's row count differs from the first column's "
         "(the harness sharedbatch runs the real encoder); the decoder programs keep only the statements that change slice lengths / counters (translate/goroutines_writer_src/decoders.go); "
         "x[:len(y)] is treated as a panic when len(y) > len(x) although Go allows up to cap(x); the Loki JSON and Datadog series decoders (jx callbacks) still rest on the syntactic lockstep verdict",
+        "C05 (model/IngestConn.v): fetchLoopIteration / ping are regenerated at statement level (text shapes of translate/goroutines_writer_src/service.go: a statement is 'plain' "
+        "when it has no return / go / panic and names none of client, V3Session, swapBuffers, results, portion.res, waiting, releaseWaiting, insertCtx, mtx -- calls made by plain "
+        "statements (OnBeforeInsert, stat.*, IngestSize) are trusted to return); Request / swapBuffers as read; retry.Do (third party) calls its function up to RetryAttempts times; "
+        "a database that never accepts a dial again is outside the fairness assumption (doPush has no deadline); harness conndown stops the asynchronous half of every multimodal "
+        "service (doPush uses INSERT_MODE_SYNC only) and runs with RetryAttempts 3",
     ]
     okgen = run_translator(ck)
     # run_translator has built the .vo files the case evaluations load (models + gen); the two compilations of props/C05.v
